@@ -198,6 +198,8 @@ type scenario struct {
 	af     modelv1.AggregationFunction
 	topN   int
 	topAsc bool
+	// t3int: every row's t3 is a decimal integer => t3 is declared TAG_TYPE_INT (int64 tag column)
+	t3int bool
 }
 
 var tagNames = [3]string{"t1", "t2", "t3"}
@@ -251,6 +253,12 @@ func parseScenario(f []string) *scenario {
 			sc.rows = append(sc.rows, row{shard: uint32(sh), tags: [3]string{untag(p[1]), untag(p[2]), untag(p[3])}, val: v})
 		}
 	}
+	sc.t3int = len(sc.rows) > 0
+	for _, r := range sc.rows {
+		if _, err := strconv.ParseInt(r.tags[2], 10, 64); err != nil {
+			sc.t3int = false
+		}
+	}
 	return sc
 }
 
@@ -293,7 +301,11 @@ func (sc *scenario) keyOf(tags [3]string) string {
 // ---------------------------------------------------------------------------------------
 // row path: real Analyze / DistributedAnalyze plans over a fake storage and a fake broadcaster
 
-func measureSchema() *databasev1.Measure {
+func measureSchema(t3int bool) *databasev1.Measure {
+	t3 := databasev1.TagType_TAG_TYPE_STRING
+	if t3int {
+		t3 = databasev1.TagType_TAG_TYPE_INT
+	}
 	return &databasev1.Measure{
 		Metadata: &commonv1.Metadata{Name: "m", Group: "g"},
 		Entity:   &databasev1.Entity{TagNames: []string{"t1"}},
@@ -302,7 +314,7 @@ func measureSchema() *databasev1.Measure {
 			Tags: []*databasev1.TagSpec{
 				{Name: "t1", Type: databasev1.TagType_TAG_TYPE_STRING},
 				{Name: "t2", Type: databasev1.TagType_TAG_TYPE_STRING},
-				{Name: "t3", Type: databasev1.TagType_TAG_TYPE_STRING},
+				{Name: "t3", Type: t3},
 			},
 		}},
 		Fields: []*databasev1.FieldSpec{{
@@ -333,7 +345,8 @@ func (f *fakeResult) Release() {}
 // order (group-by on the entity), rows of one series (= one value of the entity tag t1) are made contiguous,
 // series in first-appearance order, which is what a series-ordered scan guarantees.
 type fakeEC struct {
-	rows []row
+	rows  []row
+	t3int bool
 }
 
 func (f *fakeEC) Query(_ context.Context, opts model.MeasureQueryOptions) (model.MeasureQueryResult, error) {
@@ -365,9 +378,12 @@ func (f *fakeEC) Query(_ context.Context, opts model.MeasureQueryOptions) (model
 		}
 		tf := model.TagFamily{Name: "default"}
 		for j := 0; j < 3; j++ {
-			tf.Tags = append(tf.Tags, model.Tag{Name: tagNames[j], Values: []*modelv1.TagValue{
-				{Value: &modelv1.TagValue_Str{Str: &modelv1.Str{Value: r.tags[j]}}},
-			}})
+			tv := &modelv1.TagValue{Value: &modelv1.TagValue_Str{Str: &modelv1.Str{Value: r.tags[j]}}}
+			if j == 2 && f.t3int {
+				iv, _ := strconv.ParseInt(r.tags[j], 10, 64)
+				tv = &modelv1.TagValue{Value: &modelv1.TagValue_Int{Int: &modelv1.Int{Value: iv}}}
+			}
+			tf.Tags = append(tf.Tags, model.Tag{Name: tagNames[j], Values: []*modelv1.TagValue{tv}})
 		}
 		fr.res = append(fr.res, &model.MeasureResult{
 			SID:         sid,
@@ -429,14 +445,14 @@ func drain(it executor.MIterator) ([]*measurev1.InternalDataPoint, error) {
 
 // runNode is what a data node does with an (internal) query: banyand/query/processor.go executeMeasurePlan
 // (row path) + collectInternalDataPoints.
-func runNode(req *measurev1.QueryRequest, rows []row, emitPartial bool) ([]*measurev1.InternalDataPoint, error) {
-	ms := measureSchema()
+func runNode(req *measurev1.QueryRequest, rows []row, emitPartial, t3int bool) ([]*measurev1.InternalDataPoint, error) {
+	ms := measureSchema(t3int)
 	s, err := lmeasure.BuildSchema(ms, nil)
 	if err != nil {
 		return nil, err
 	}
 	plan, err := lmeasure.Analyze(req, []*commonv1.Metadata{ms.Metadata}, []logical.Schema{s},
-		[]executor.MeasureExecutionContext{&fakeEC{rows: rows}}, emitPartial)
+		[]executor.MeasureExecutionContext{&fakeEC{rows: rows, t3int: t3int}}, emitPartial)
 	if err != nil {
 		return nil, err
 	}
@@ -477,7 +493,7 @@ func (c *fakeCluster) Broadcast(_ time.Duration, _ bus.Topic, message bus.Messag
 		if err = proto.Unmarshal(b, nreq); err != nil {
 			return nil, err
 		}
-		dps, err := runNode(nreq.Request, c.sc.nodeRows(shards), nreq.AggReturnPartial)
+		dps, err := runNode(nreq.Request, c.sc.nodeRows(shards), nreq.AggReturnPartial, c.sc.t3int)
 		if err != nil {
 			c.err = err
 			return nil, err
@@ -503,7 +519,11 @@ func tagsOf(dp *measurev1.DataPoint) [3]string {
 		for _, tg := range tf.GetTags() {
 			for i := 0; i < 3; i++ {
 				if tg.GetKey() == tagNames[i] {
-					t[i] = tg.GetValue().GetStr().GetValue()
+					if iv, ok := tg.GetValue().GetValue().(*modelv1.TagValue_Int); ok {
+						t[i] = strconv.FormatInt(iv.Int.GetValue(), 10)
+					} else {
+						t[i] = tg.GetValue().GetStr().GetValue()
+					}
 				}
 			}
 		}
@@ -555,11 +575,11 @@ func (sc *scenario) allRows() []row {
 func doRow(f []string) string {
 	sc := parseScenario(f)
 	req := sc.request()
-	local, err := runNode(req, sc.allRows(), false)
+	local, err := runNode(req, sc.allRows(), false, sc.t3int)
 	if err != nil {
 		return "ERR local " + errClass(err)
 	}
-	ms := measureSchema()
+	ms := measureSchema(sc.t3int)
 	s, err := lmeasure.BuildSchema(ms, nil)
 	if err != nil {
 		return "ERR schema"
@@ -592,12 +612,16 @@ func errClass(err error) string {
 // ---------------------------------------------------------------------------------------
 // vectorized path: BuildOperators (AggModeAll / AggModeMap) -> frame -> ReduceRawFrames -> ApplyTopToReduce
 
-func vecSchema() *vectorized.BatchSchema {
+func vecSchema(t3int bool) *vectorized.BatchSchema {
+	t3 := vectorized.ColumnTypeString
+	if t3int {
+		t3 = vectorized.ColumnTypeInt64
+	}
 	return vectorized.NewBatchSchema([]vectorized.ColumnDef{
 		{Role: vectorized.RoleShardID, Name: "shard_id", Type: vectorized.ColumnTypeInt64},
 		{Role: vectorized.RoleTag, TagFamily: "default", Name: "t1", Type: vectorized.ColumnTypeString},
 		{Role: vectorized.RoleTag, TagFamily: "default", Name: "t2", Type: vectorized.ColumnTypeString},
-		{Role: vectorized.RoleTag, TagFamily: "default", Name: "t3", Type: vectorized.ColumnTypeString},
+		{Role: vectorized.RoleTag, TagFamily: "default", Name: "t3", Type: t3},
 		{Role: vectorized.RoleField, Name: "v", Type: vectorized.ColumnTypeInt64},
 	})
 }
@@ -623,7 +647,12 @@ func vecBatches(s *vectorized.BatchSchema, rows []row) []*vectorized.RecordBatch
 			b.Columns[0].(*vectorized.TypedColumn[int64]).Append(int64(r.shard))
 			b.Columns[1].(*vectorized.TypedColumn[string]).Append(r.tags[0])
 			b.Columns[2].(*vectorized.TypedColumn[string]).Append(r.tags[1])
-			b.Columns[3].(*vectorized.TypedColumn[string]).Append(r.tags[2])
+			if ic, ok := b.Columns[3].(*vectorized.TypedColumn[int64]); ok {
+				iv, _ := strconv.ParseInt(r.tags[2], 10, 64)
+				ic.Append(iv)
+			} else {
+				b.Columns[3].(*vectorized.TypedColumn[string]).Append(r.tags[2])
+			}
 			b.Columns[4].(*vectorized.TypedColumn[int64]).Append(r.val)
 		}
 		b.Len = j - i
@@ -633,7 +662,7 @@ func vecBatches(s *vectorized.BatchSchema, rows []row) []*vectorized.RecordBatch
 }
 
 func vecRun(sc *scenario, rows []row, mode vmeasure.AggMode) ([]*vectorized.RecordBatch, error) {
-	s := vecSchema()
+	s := vecSchema(sc.t3int)
 	ops, err := vmeasure.BuildOperators(sc.vecOpts(), s, vectorized.NewMemoryTracker(1<<30), 4, mode)
 	if err != nil {
 		return nil, err
@@ -688,7 +717,11 @@ func (sc *scenario) vecTags(b *vectorized.RecordBatch, r int) [3]string {
 	var t [3]string
 	for i := 0; i < 3; i++ {
 		if c := colByName(b, vectorized.RoleTag, tagNames[i]); c != nil {
-			t[i] = c.(*vectorized.TypedColumn[string]).Data()[r]
+			if ic, ok := c.(*vectorized.TypedColumn[int64]); ok {
+				t[i] = strconv.FormatInt(ic.Data()[r], 10)
+			} else {
+				t[i] = c.(*vectorized.TypedColumn[string]).Data()[r]
+			}
 		}
 	}
 	return t
